@@ -15,6 +15,8 @@ EXTENDS Parse, StrTab, Header, Note, Hash, SymVer
 \* ---- file access -----------------------------------------------------------
 ByteAt(f, i) ==     \* 0-based
     IF f.dense THEN f.bytes[i + 1]
+    ELSE IF Len(f.chunks) = 1 /\ f.chunks[1].off = 0                      \* one leading chunk, then the fill: direct
+         THEN (IF i < Len(f.chunks[1].bytes) THEN f.chunks[1].bytes[i + 1] ELSE f.fill)
     ELSE LET hit == { k \in 1..Len(f.chunks) : f.chunks[k].off <= i /\ i < f.chunks[k].off + Len(f.chunks[k].bytes) }
          IN IF hit = {} THEN f.fill
             ELSE LET k == CHOOSE x \in hit : \A y \in hit : x >= y       \* later chunks overwrite earlier ones
